@@ -30,6 +30,10 @@ CLAIMED = {
          "Partial. Proof (Lean, all inputs): finalize of any write sequence = concatenate MSB-first, zero-pad, pack big-endian, stuff 0x00 after 0xFF (C17_bitwriter_refines, + no panic for lengths <= 63, + padding_bits); has_ff_byte exact for all 2^64 words; HuffmanCode::build on every valid table yields the canonical JPEG code, which is prefix-free and never all-ones; the status answer is 'available' exactly when the jbrd box is complete and length-checked, all requested ICC/Exif/XMP data has arrived and one normal VarDCT frame is loaded; expected_*_len cannot underflow on headers the repaired parser accepts. Testing (seeded, every run): model vs real BitWriter/has_ff_byte/HuffmanCode::build via hook H6; crafted hostile/truncated jbrd containers fed in chunks through JxlImage - any panic or an 'available' answer while the box/frame is incomplete is a concrete violation. NOT exercised by proof or test: end-to-end 'reconstructed file == original JPEG' (no JPEG->JPEG XL transcoder and no transcoded fixtures exist offline); VarDCT coefficient extraction, integer chroma-from-luma, marker replay and the scan re-encoder are not modelled.",
          "Trusted: Lean kernel, axioms propext/Classical.choice/Quot.sound, the correspondence harness and its generators, hook H6 (add-only accessors in jxl-jbr). Preconditions: write_huffman gets a left-aligned code with nothing below its top len bits, len <= 64 (64 into an empty accumulator panics in a checked build; the scan encoder stays <= 63); usize/u64 = 64 bit. The modelled status logic is the repaired one (fix-F4, fix-jbrd-status-incomplete, fix-status-frame-check). HuffmanCode::build panics on degenerate tables (<= 1 value, count for length 0): reachable only behind a valid VarDCT frame, so argued from the model and reproduced through H6 only.",
          "DESIGN.md §4 C17, §8 F4"),
+ "C14": ("Lean 4: deep embedding of the header macro (one generic parser, one generic writer) with ONE round-trip theorem over all bundle descriptions, primitive round trips (U32 every selector, U64 every form, F16 patterns, enums, UnpackSigned), proved by induction over field lists; descriptions regenerated from the Rust source by tools/translate.py on every run and re-checked by the kernel against the pinned ones; two-way differential correspondence (model writer -> real ImageHeader/FrameHeader/Toc::parse, and mutated/random bit strings -> both parsers)",
+         "Proof: for every bundle description, context, canonical value, selector choice and stream continuation, parsing what the writer wrote returns exactly the value and stops at exactly the writer's bit (C14_bundle_roundtrip, C14_parse_stops_at_writer_bit), instantiated at the image header, frame header, plain TOC and all 21 define_bundle! structs (kernel-evaluated witnesses with every optional part present); C14_generated_matches_pinned ties the descriptions to the current source. Partial: the F16 pattern -> f32 value conversion is an integer model compared with the real arithmetic by execution (not proved); derived quantities (oriented sizes, group counts, TOC offsets/order, keyframe flags) are hand-modelled and compared by execution; a permuted TOC is covered only for a hand-made trivial entropy code - the entropy-coded Lehmer layer belongs to C04; hand-written parsers are modelled by hand and pinned by extracted primitive-read sequences, U32 distributions, enum domains and source hashes.",
+         "Trusted: Lean kernel, axioms propext/Classical.choice/Quot.sound, tools/translate.py (exercised by the differential run), the correspondence harness and its dump projection (private fields are observable only through the values they determine). Checked-build u32 overflows in num_groups()/Toc::parse are mirrored as `panic` on both sides.",
+         "DESIGN.md §4 C14"),
 }
 NOT_YET = "machinery for this property is not built yet in this snapshot (planned, see DESIGN.md §4/§10); it is claimed as soon as its theorems and correspondence check land"
 
